@@ -18,6 +18,9 @@ CHECKS = {
  "C04": ("Hypothesis-generated (provenance builder x base network x addition history) cases; before/after snapshot oracle plus model-predicted number of new IDs",
          "Exploration over a registry of ~100 ways to obtain a network (every constructor input type, from_*/read_* function, generator, copy/pickle, relabelling, derived networks) crossed with generated addition histories; around every addition all old IDs must keep members and attributes and the count of new IDs must equal what the reference model adds. The registry is audited against introspection and gaps are listed in the evidence.",
          "New public builders are seen by the audit but only exercised once registered; expected counts come from the C05 models.", "DESIGN.md#C04"),
+ "C06": ("Hypothesis-generated (network, stat arguments, filter, edit history) cases; view and stat objects created once and re-read after every edit, compared with brute-force recomputation and with each other",
+         "Exploration: for three classes, ~30 stat objects and both views are held across a generated edit history; after every edit each output form (asdict, aslist, asnumpy, aspandas, multi, stat[id]) is compared with the others, with view order and with values recomputed from members()/memberships(); filters, neighbours, lookup, duplicates, isolates, singletons, empty and maximal are compared with their set definitions.",
+         "members()/memberships() are the trusted primitives (their consistency is C01/C02); clustering-valued stats are only checked for mutual consistency here (their values belong to C09/C14).", "DESIGN.md#C06"),
  "C05": ("Model-based testing: Hypothesis-generated histories applied step by step to xgi and to reference models transcribed from the docstrings (three classes), metamorphic relations for the degree-preserving moves",
          "Exploration by refinement checking against an executable specification: every op of a generated history is applied to the implementation and to the model (parametric in fresh IDs, prefix semantics for bulk calls) and the observable snapshots are compared after every step, including after rejected calls and their exception types.",
          "The models are my transcription of the documentation; inputs the documentation leaves contradictory are excluded by construction and counted (see assumptions in the evidence).", "DESIGN.md#C05"),
